@@ -111,6 +111,7 @@ ITERS = (
 def fuse(ctx, lexpr):
     r = ctx.rule("R-FUSE", "iteration over a parser ends after an error: a sticky flag is tested on entry and set on "
                            "every Some(Err) return (or every error return consumes input)")
+    flag_fields = set()
     for it_path, step in ITERS:
         f = lexpr.fn(it_path)
         if f is None:
@@ -151,6 +152,7 @@ def fuse(ctx, lexpr):
                                 "them is not fused and can yield the same error forever" % (it_path, flag), f.loc())
                 else:
                     r.ok("%s: the flag %r lives in the parser and survives re-creating the iterator" % (it_path, flag), f)
+                    flag_fields.add(flag.path[-1])
                 continue
             r.violation(it_path, "flag-not-tested",
                         "%s stores %r on error but does not return None on entry when it is set" % (it_path, flag), f.loc())
@@ -166,6 +168,30 @@ def fuse(ctx, lexpr):
                         "%s is not fused (no sticky flag) and %s can return an error without consuming input when the "
                         "next byte is %s: iterating over such an input yields the same error forever"
                         % (it_path, step, lex.fmt_bytes(bad_bytes)), f.loc())
+    # the flag is sticky: nothing reachable from the iterator entry points (including the constructors
+    # value_iter()/datum_iter() that <Parser as Iterator>::next calls for every item) may clear it
+    if flag_fields:
+        from .. import reach
+        g = reach.build_graph(lexpr, False)
+        roots = [p for p in ("<parse::Parser<R> as std::iter::Iterator>::next",) + tuple(i[0] for i in ITERS) if lexpr.fn(p)]
+        for fp in sorted(reach.reachable(g, roots)):
+            fn = lexpr.fn(fp)
+            if fn is None:
+                continue
+            for b in fn.blocks:
+                for st in b["stmts"]:
+                    if st["k"] != "assign" or not st["place"]["p"]:
+                        continue
+                    last = st["place"]["p"][-1]
+                    if isinstance(last, dict) and last.get("n") in flag_fields and last.get("adt") == "parse::Parser":
+                        v = common.const_int(st["rv"].get("op", {})) if st["rv"]["k"] == "use" else None
+                        if v != 1:
+                            r.violation(fp, "flag-cleared",
+                                        "%s, which is reachable from the iterator entry points, resets the fused flag `%s` "
+                                        "(line %s): <Parser as Iterator>::next builds a new iterator for every item, so an "
+                                        "error that consumes no input is yielded forever" % (fp, last.get("n"), st.get("line")),
+                                        fn.loc(st.get("line")))
+        r.ok("no function reachable from the iterator entry points clears the fused flag %s" % sorted(flag_fields))
     # Iterator for Parser must go through one of the checked iterators
     pit = lexpr.fn("<parse::Parser<R> as std::iter::Iterator>::next")
     if pit is None:
